@@ -549,3 +549,22 @@ Lemma checktx_depends_on_node_config :
   checktx_admits env_id ex_state (ex_tx 0 false None) = true /\
   checktx_admits env_rev ex_state (ex_tx 0 false None) = false.
 Proof. split; vm_compute; reflexivity. Qed.
+
+(* distinct operators make validators distinct and their sort keys injective *)
+Lemma distinct_ops l : NoDup (map v_op l) -> NoDup l /\ key_inj l.
+Proof.
+  intros H. split.
+  - eapply NoDup_map_inv. exact H.
+  - induction l as [|x r IH]; intros a b Ha Hb Ht Ho; [contradiction|].
+    cbn [map] in H. inversion H as [|? ? Hnin Hr]; subst.
+    destruct Ha as [<-|Ha]; destruct Hb as [<-|Hb]; try reflexivity.
+    + exfalso. apply Hnin. rewrite Ho. apply in_map. exact Hb.
+    + exfalso. apply Hnin. rewrite <- Ho. apply in_map. exact Ha.
+    + apply (IH Hr); assumption.
+Qed.
+
+Lemma ex_vals_distinct : NoDup (map v_op ex_vals).
+Proof.
+  change (map v_op ex_vals) with [0; 1; 2; 3].
+  repeat constructor; cbn [In]; intros H; repeat (destruct H as [H|H]; [discriminate H|]); exact H.
+Qed.
